@@ -84,7 +84,36 @@ def keywordise(src):
     ast.fix_missing_locations(t)
     out = ast.unparse(t) + "\n"; compile(out, "f", "exec"); return out
 
-X = {"invert": invert_ifs, "logging": add_logging, "swap": swap_adjacent, "kw": keywordise}
+def hoist_args(src):
+    """`y = f(g(x), z)` -> `_h1 = g(x); y = f(_h1, z)` for statement-level calls whose first argument is itself a call or attribute chain."""
+    t = ast.parse(src)
+    cnt = [0]
+    def do_block(b):
+        i = 0
+        while i < len(b):
+            st = b[i]
+            call = None
+            if isinstance(st, ast.Assign) and isinstance(st.value, ast.Call):
+                call = st.value
+            elif isinstance(st, ast.Expr) and isinstance(st.value, ast.Call):
+                call = st.value
+            if call is not None and call.args and isinstance(call.args[0], (ast.Call, ast.Subscript)) and not isinstance(call.func, ast.Name) or (call is not None and call.args and isinstance(call.args[0], (ast.Call, ast.Subscript)) and isinstance(call.func, ast.Name) and call.func.id not in ("super", "isinstance", "len", "enumerate", "zip", "range", "reversed", "iter", "next", "sorted", "list", "tuple", "set", "dict", "str", "int", "float", "print", "min", "max", "sum", "abs", "getattr", "hasattr")):
+                cnt[0] += 1
+                nm = f"_h{cnt[0]}"
+                b.insert(i, ast.Assign(targets=[ast.Name(id=nm, ctx=ast.Store())], value=call.args[0]))
+                call.args[0] = ast.Name(id=nm, ctx=ast.Load())
+                i += 1
+            i += 1
+    for n in ast.walk(t):
+        if isinstance(n, (ast.FunctionDef, ast.AsyncFunctionDef, ast.For, ast.While, ast.If, ast.With, ast.Try)):
+            for field in ("body", "orelse", "finalbody"):
+                b = getattr(n, field, None)
+                if isinstance(b, list) and b and isinstance(b[0], ast.stmt):
+                    do_block(b)
+    ast.fix_missing_locations(t)
+    out = ast.unparse(t) + "\n"; compile(out, "f", "exec"); return out
+
+X = {"invert": invert_ifs, "logging": add_logging, "swap": swap_adjacent, "kw": keywordise, "hoist": hoist_args}
 which = sys.argv[1]
 base = Tree('/repo'); ov = {rel: X[which](m.src) for rel, m in base.modules.items()}
 props = sys.argv[2:] or "C03 C04 C05 C06 C07 C08 C09 C11 C12 C13 C14 C15 C16 C17 C18 C19 C20".split()
